@@ -1954,7 +1954,11 @@ void identify_global_search_terms(mmd_engine * e, scratch_pad * scratch) {
 }
 
 
+void ran_num_reset(void);
+
 void mmd_engine_export_token_tree(DString * out, mmd_engine * e, short format) {
+	// Restart the e-mail obfuscation sequence
+	ran_num_reset();
 
 	// Process potential reference definitions
 	process_definition_stack(e);
